@@ -1,3 +1,2 @@
--- This module serves as the root of the `Discv5Model` library.
--- Import modules here that should be built as part of the library.
-import Discv5Model.Basic
+-- Root of the `Discv5Model` library: models, helper proofs and property theorems.
+import Discv5Model.Props.C05
